@@ -44,6 +44,39 @@ CLAIMS.update({
               "The `quantities` package is an ASSUMED contract (pyvc/qmodel.py), sampled against the real package by the bounded stand-ins of C09/C19. Temperatures in kelvin only. sulfuric_acid_density, density_from_concentration and lg_solubility_ratio are bounded only."),
 })
 
+CLAIMS.update({
+    "C01": _c("The element regex literal (read from the AST) is proved to accept exactly the 118 symbols and to tokenise greedily/deterministically (z3 regex, cvc5); the parse actions multiplyContents/sumByElement, _parse_stoich's atomic-number mapping, _get_leading_integer, _get_charge (values and every rejection class over [0-9+-]*) and _formula_to_parts (prefix/suffix stripping, reassembly, single sign, slash rejection) are proved on symbolic strings/counts; formula_to_composition's hydrate accumulation and charge placement is proved modularly at 1-3 parts. "
+              "How pyparsing combines the actions for unbounded nesting is outside the contract: bounded grammar enumeration (depth<=3) + exhaustive 118x118 adjacency.",
+              "pyparsing's engine is not under contract (bounded only). A9 string/regex models; int() on non-ASCII digit forms not modelled (inputs restricted to the grammar's alphabet)."),
+    "C02": _c("balance_stoichiometry delegates to sympy/CBC. Proved (shape-bounded, all composition values / all solver outputs): head slice up to linsolve = signed composition matrix and the presence pre-check; tail slice after the last assignment to `sol` = every normal return has non-zero, non-negative coefficients, and in the numeric modes numeric ones with A*sol = 0, keyed by exactly the given species. "
+              "Positivity/coprimality/minimality/refusal as properties of the solvers' output are decided only inside the bounded exhaustive stand-in (Fraction null-space oracle).",
+              "Slices are cut mechanically from the real AST every run. sympy objects are modelled by the attributes the tail reads (is_negative, free_symbols, ==, int).", category="other",
+              technique=TECH + " on mechanical head/tail slices; bounded exhaustive stand-in for solver-dependent clauses"),
+    "C04": _c("get_odesys is executed symbolically through SymbolicSys.from_callback (assumed contract 5.6 supplied via the function's own SymbolicSys parameter): right-hand side = N^T r per substance in substance order for all coefficients/constants/concentrations, names/param_names, linear invariants, free-parameter neutrality (binding registered unique keys reproduces the inlined rhs), passive substitutions, cstr feed terms, reserved 'time', rate_exprs_cb; _create_odesys by exact sympy comparison on fixed systems. Generated systems: bounded translation validation.",
+              "pyodesys beyond the callback contract is external (assumed + bounded)."),
+    "C06": _c("The advertised explicit-Euler step (closure max_euler_step_cb) is proved safe for ANY right-hand side and any state in [0, bound]: 0 <= h <= 1 and 0 <= y + h f <= bound component-wise (nlsat, 2-4 components). Agreement of the delegated integrator with exact solutions and non-negativity of trajectories are NOT decidable by contracts: bounded stand-in only (expm / closed forms).",
+              "Headline clause (integration accuracy) is bounded only: category other.", category="other",
+              technique=TECH + " for the Euler-step clause; bounded comparison against matrix exponential / closed forms for the integrator"),
+    "C07": _c("NumSysLin.f, NumSysSquare.f, NumSysLog.f are proved entry by entry (Q_i/K_i - 1; conservation rows B(y-y0); A ln c - ln K; conservation of exp(y); Square = Lin of squares), with equation count nr + #keys and zero-iff-equilibrium in SMT, plus equilibrium_quotient, mat_dot_vec, prodpow, for all states/constants at two homogeneous systems. rref configurations, LinRel/LinTanh: bounded stand-in.",
+              "pyneqsys.linear_exprs(rref=False) per its source; rref paths external."),
+    "C08": _c("Proved: _result_is_sane is exactly non-negativity and the elemental bound (with warnings); root/_solve plumbing (params, default x0, sanity of the RETURNED x vs the SAME initial state, failure warning); precipitation switches; dissolved(); pre/post processor inverses. "
+              "That success-and-sane implies a genuine equilibrium depends on the external least-squares solver: bounded run-time contract, with recorded findings F-C08/F-C08b (solver reports success at non-roots).",
+              "pyneqsys solvers external; category other because the headline clause is bounded only.", category="other",
+              technique=TECH + " for chempy's own plumbing; bounded run-time contract on EqSystem.root/solve"),
+    "C09": _c("Under the unit abstraction 5.1 (generic units of symbolic scale): to_unitless = magnitude * exact unit ratio (reversible, composable, linear, element-wise, raises on dimension mismatch), get_derived_unit for every key against an independent SI exponent table for every registry, delegation shape of linspace/concatenate/tile/polyfit/polyval, Backend wrapper; unit definitions and the abstraction itself validated against the real package (data obligations). Registry helpers that walk quantities internals: bounded stand-in.",
+              "`quantities` is an assumed contract (pyvc/qmodel.py)."),
+    "C10": _c("Under 5.1: Reaction.check_consistent_units accepts iff dimension = conc^(1-order)/time (orders 0-3, any units, each one-off dimension rejected); Equilibrium never accepts another dimension; args_dimensionality of all rate classes for EVERY order (symbolic); Expr.dedimensionalisation preserves physical values argument-wise (nested), hence registry-independent mass-action rates. get_odesys unit callbacks end-to-end: bounded metamorphic stand-in over three registries.",
+              "default_unit_in_registry/unitless_in_registry are assumed at call sites (they walk quantities internals)."),
+    "C12": _c("Printing structure proved for symbolic coefficients in all four printers; _parse_multiplicity proved to invert the printed term layouts for every n>=0 incl. repeated species and allowed-key check; to_reaction placement/parameter routes modularly; _is_inactive_group exhaustively (all strings over 4 letters up to length 7); copy/==. Full text round trips: bounded stand-in.",
+              "A9 model of re.split on space-free pieces; eval() external."),
+    "C13": _c("_formula_to_format proved modularly over the C01 contracts for every charge and hydrate multiplier in all three formats (prefix images, subscripts, infix, multiplier iff != 1, charge token magnitude-then-sign with 1 omitted, suffix verbatim); tables as data obligations against Unicode code points; Species phase index; printers use the format names. Global invertibility over generated formulas: bounded stand-in.",
+              "stoichiometry texts concrete per harness."),
+    "C15": _c("upper_conc_bounds (totals, least ratio, charge skipped, dominance over every non-negative state with the same totals), identify_equilibria, participation/effect, categorize_substances, subset/+/+=/==, conversions, constructor checks proved for all coefficients/compositions at fixed key layouts; split() and key-structure generality by the EXHAUSTIVE bounded enumeration of all systems of <=4 reactions over <=5 substances in every order.",
+              "split() itself is decided only by the exhaustive bounded stand-in."),
+    "C20": _c("Power-of-ten renderers proved on symbolic exponent strings and exhaustively for all exponents -330..330; _number_to_X plumbing (split once at 'e', unit after separator, uncertainty routed to _float_str_w_uncert with converted magnitudes); roman() verified on its whole domain 1..3999; reaction parameter rendering. %g and _float_str_w_uncert numerics: assumed (5.7) + bounded stand-in.",
+              "'%.Ng' is an assumed contract (C99 grammar, at most one 'e')."),
+})
+
 _PENDING = "contracts for this property are not built yet in this round (work in progress; see DESIGN.md section 7 for the plan)"
 NOT_APPLICABLE = {p: _PENDING for p in ["C%02d" % i for i in range(1, 21)] if p not in CLAIMS}
 
